@@ -1,19 +1,21 @@
 #!/bin/bash
 # usage: try_benign.sh <patch.diff>  — applies a behaviour-preserving patch to a scratch copy of /repo and runs all
-# 19 checks: each must stay silent (exit 0). Prints the alarms, exit 1 if any.
+# 19 checks (8 at a time): each must stay silent (exit 0). Prints the alarms, exit 1 if any.
 set -u
 export GOFLAGS=-mod=mod GOPROXY=off GOSUMDB=off GOTOOLCHAIN=local; unset GOWORK
 patch=$1
 D=$(mktemp -d /tmp/tryb.XXXXXX)
 rsync -a --exclude .git /repo/ $D/repo/
-mkdir -p $D/v && cp /verif/KNOWN_FINDINGS.json $D/v/
 (cd $D/repo && git init -q . 2>/dev/null; git apply --whitespace=nowarn "$patch") || { echo "PATCH DOES NOT APPLY"; rm -rf $D; exit 3; }
 (cd $D/repo && go build ./... 2>&1 | head -5)
+one() {
+  p=$1; mkdir -p $D/v_$p && cp /verif/KNOWN_FINDINGS.json $D/v_$p/
+  out=$(VERIF_REPO=$D/repo VERIF_DIR=$D/v_$p /verif/bin/pulsarcheck -property $p 2>&1); r=$?
+  if [ $r -ne 0 ]; then echo "ALARM $p: $(echo "$out" | grep -v "^VIOLATION\|^KNOWN-FINDING" | head -${LINES_MAX:-2} | cut -c1-${WIDTH:-360})" > $D/res_$p; fi
+}
+export -f one; export D
+printf '%s\n' C01 C02 C03 C04 C05 C06 C07 C08 C09 C10 C11 C12 C13 C14 C15 C16 C17 C18 C19 | xargs -P 8 -I{} bash -c 'one {}'
 rc=0
-for p in C01 C02 C03 C04 C05 C06 C07 C08 C09 C10 C11 C12 C13 C14 C15 C16 C17 C18 C19; do
-  out=$(VERIF_REPO=$D/repo VERIF_DIR=$D/v /verif/bin/pulsarcheck -property $p 2>&1); r=$?
-  if [ $r -ne 0 ]; then rc=1; echo "ALARM $p: $(echo "$out" | grep -v "^VIOLATION\|^KNOWN-FINDING" | head -${LINES_MAX:-2} | cut -c1-${WIDTH:-360})"; fi
-done
-[ $rc -eq 0 ] && echo "all 19 silent"
+if ls $D/res_* >/dev/null 2>&1; then cat $D/res_*; rc=1; else echo "all 19 silent"; fi
 rm -rf $D
 exit $rc
